@@ -60,6 +60,9 @@ def op_strategy(depth=2):
         nv.map(lambda v: T("reflect", v)),
         st.sampled_from(["xy", "yz", "zx"]).map(lambda p: T("mirror", p)),
         st.tuples(c, c, c).map(lambda t: T("set_pivot", list(t))),
+        # pivots whose coordinates cancel out (x + y + z = 0) are not the origin
+        st.tuples(c, c).map(lambda t: T("set_pivot", [t[0], -t[0], 0.0] if t[1] < 0
+                                        else [t[0], t[1], -(t[0] + t[1])])),
         # the public escape hatch: any 4x4 matrix (shears are only reachable
         # this way); a 3x3 matrix must be refused with ValueError
         affine_strategy().map(lambda m: T("chain_transform", m)),
